@@ -10,6 +10,8 @@ for d in sorted(glob.glob(os.path.join(root, "*/"))):
         continue
     m, r = json.load(open(mp)), json.load(open(rp))
     kind = "benign (must NOT alarm)" if m.get("benign") else "breaking"
+    if m.get("framework_author_assessment", {}).get("violates_property_as_stated") is False:
+        kind = "behaviour change that does not contradict the property as stated (see meta.json)"
     need = (m.get("needs_to_manifest") or m.get("summary") or "").replace("|", "/").replace("\n", " ")
     if len(need) > 230:
         need = need[:227] + "..."
